@@ -39,7 +39,7 @@ Proof. exact row_roundtrip. Qed.
 (* ... and for every live annotation of a store with well-formed ranges: the row the writer
    packs decodes to the builder that names the annotation's id, data and, leaf by leaf, target *)
 Theorem C15_unpack_pack : forall s h a r, store_ok s = true -> get_ann s h = Some a ->
-  (a_kind a <> 0 -> a_leaves a <> []) -> pack_row s h a = Some r ->
+  pack_row s h a = Some r ->
   exists bs ds, map_opt (leaf_build s) (a_leaves a) = Some bs /\ data_names s a = Some ds /\
     csv_row_now r = Ok {| Loader.ab_id := opt (id_column h a); Loader.ab_data := ds;
                           Loader.ab_target := Some (target_of (a_kind a) bs) |}.
@@ -123,7 +123,7 @@ Theorem C15_save_total : forall ops, Forall op_ok ops -> Forall kind_ok ops -> s
 Proof. exact reachable_save. Qed.
 
 (* THE PROPERTY for every reachable store (any history of add / annotate / remove operations)
-   outside the two known classes: the model of save-then-load equals the specification.  What is
+   outside the known class: the model of save-then-load equals the specification.  What is
    left as hypothesis concerns the size of numbers (ids_fit: tokens and handles below 2^64,
    lens_fit: text lengths up to isize::MAX), C03's condition on data ids (op_ok) and the three
    complex selector kinds of the API (kind_ok) *)
@@ -132,18 +132,18 @@ Theorem C15_statement : forall ops, Forall op_ok ops -> Forall kind_ok ops ->
   sx_of_loaded (roundtrip (run ops)) = roundtrip_spec (run ops).
 Proof. exact reachable_roundtrip_uncond. Qed.
 
-(* the known classes are real failures of the full property *)
+(* the known class is a real failure of the full property *)
 Theorem C15_tempid_refuted :
   Known_C15_tempid (run tempid_ops) = true
   /\ sx_of_loaded (roundtrip (run tempid_ops)) <> roundtrip_spec (run tempid_ops)
   /\ Known_C15_tempid (run tempid_gap_ops) = true
   /\ roundtrip (run tempid_gap_ops) = LErr.
 Proof. exact Known_C15_tempid_witness. Qed.
-Theorem C15_empty_complex_refuted :
-  Known_C15_empty_complex (run empty_complex_ops) = true
-  /\ length (live_items (anns (run empty_complex_ops))) = 1
-  /\ roundtrip (run empty_complex_ops) = LErr.
-Proof. exact Known_C15_empty_complex_witness. Qed.
+(* complex selectors without members (annotate() accepts them) are read back too (8591e12) *)
+Example C15_empty_complex :
+  length (live_items (anns (run empty_complex_ops))) = 2
+  /\ sx_of_loaded (roundtrip (run empty_complex_ops)) = roundtrip_spec (run empty_complex_ops).
+Proof. exact empty_complex_roundtrip. Qed.
 
 (* non-vacuity: a store with every selector kind, all alignments, a relative offset, a composite
    with eight mixed members, typed values and a removed annotation satisfies the full property *)
